@@ -39,11 +39,13 @@ def make(rng, sid, harness, tmpbase):
     if single:
         files[b"/srv/one.conf"] = rng.choice(BAD if bad else CONTENTS)
     else:
+        # the name given to the tool: base name and suffix are split at the last dot
+        base = rng.choice([b"app", b"app", b"org.example.app", b"a.b"])
         if rng.random() < 0.6:
-            files[b"/usr/etc/app.conf"] = rng.choice(CONTENTS)
+            files[b"/usr/etc/" + base + b".conf"] = rng.choice(CONTENTS)
         if rng.random() < 0.5:
-            files[b"/etc/app.conf"] = rng.choice(CONTENTS)
-        for d in (b"/usr/etc/app.conf.d/", b"/etc/app.conf.d/"):
+            files[b"/etc/" + base + b".conf"] = rng.choice(CONTENTS)
+        for d in (b"/usr/etc/" + base + b".conf.d/", b"/etc/" + base + b".conf.d/"):
             for nm in rng.sample([b"10-a.conf", b"b.conf", b"9-z.conf"], rng.randint(0, 2)):
                 files[d + nm] = rng.choice(CONTENTS)
         if bad and files:
@@ -63,13 +65,13 @@ def make(rng, sid, harness, tmpbase):
         name = root + "/srv/one.conf"
         s.add("RF", 0, h(name.encode()), h(delim), h(comment))
     else:
-        name = "app.conf"
-        s.add("RD", 0, h(b"/usr/etc"), h(b"/etc"), h(b"app"), h(b".conf"), h(delim), h(comment))
+        name = base.decode() + ".conf"
+        s.add("RD", 0, h(b"/usr/etc"), h(b"/etc"), h(base), h(b".conf"), h(delim), h(comment))
     s.add("DUMPX", 0)
     s.add("TOOLSHOW", 0)
     s.add("ERRLOC")
     if not single:
-        s.add("RH", 10, h(b"/usr/etc"), h(b"/etc"), h(b"app"), h(b".conf"), h(delim), h(comment))
+        s.add("RH", 10, h(b"/usr/etc"), h(b"/etc"), h(base), h(b".conf"), h(delim), h(comment))
         for i in range(10, 18):
             s.add("PATH", i) if False else None
             s.add("TOOLSHOW", i)
